@@ -180,3 +180,21 @@ package subgroup_info
 //@   ensures [errOrTree] (result1 != nil && result0 == nil) || (result1 == nil && result0 != nil && fresh(result0))
 //@   ensures [rootIsRoot] result1 == nil ==> result0.name == ""
 //@ end
+
+// GetAllPodSets walks the sub-group tree recursively. Its totality (no nil child, termination) depends on the
+// nodes reachable from sgs forming a finite tree of non-nil nodes: a reachability invariant that per-function contracts
+// over this heap model cannot state (a quantifier over "all *SubGroupSet" ranges over every address). NOT decided
+// here (see report); proved is only what callers need: the result is a new map (whenever the call returns).
+//@ func (*SubGroupSet).GetAllPodSets
+//@   props C10
+//@   nopanic off
+//@   note no-panic/termination of the recursive tree walk need a reachability invariant (tree of non-nil nodes below sgs); only the freshness of the result is proved
+//@   fresh
+//@   loop 1
+//@     invariant result != nil && fresh(result)
+//@   loop 2
+//@     invariant result != nil && fresh(result)
+//@   loop 3
+//@     invariant result != nil && fresh(result)
+//@   ensures result != nil
+//@ end
